@@ -154,7 +154,7 @@ Proof. unfold n_err, enq_i. cbn [f_iq set_iq]. rewrite filter_app, app_length. c
 (* the repaired variant keeps wrapped expressions out of the queues ... *)
 Lemma do_action_no_lazy a st : no_lazy st -> no_lazy (snd (do_action fx_fixed env inst a st)).
 Proof.
-  intros H. destruct a as [b|name t ps c|name t ps c|k|sid ps c| |fin|id args tk]; cbn [do_action].
+  intros H. destruct a as [b|name t ps c|name t ps c|k|sid ps c| |fin|id args tk|r0]; cbn [do_action].
   - pose proof (run_block_no_lazy b st H) as Hb. destruct (run_block inst b st) as [ok st']. exact Hb.
   - destruct (send_args fx_fixed ps c) as [p|] eqn:E; [|now apply no_lazy_raise_err].
     destruct (deliver env (ext_event name p) t st) as [st'|] eqn:D; cbn [snd]; [|now apply no_lazy_raise_err].
@@ -180,12 +180,13 @@ Proof.
     cbn [snd] in Hb. destruct ok; [exact Hb|]. cbn [fx_finalize_unguarded fx_fixed]. exact Hb.
   - destruct (all_ok args && tk); cbn [snd]; [now apply no_lazy_add_invoked|].
     cbn [fx_invoke_error_only_logged fx_fixed]. now apply no_lazy_raise_err.
+  - destruct (evr_ok r0); cbn [snd]; [exact H | now apply no_lazy_raise_err].
 Qed.
 
 (* ... and so no action lets an exception out of step() or out of the timer thread *)
 Lemma do_action_never_escapes a st : no_lazy st -> fst (do_action fx_fixed env inst a st) <> Escaped.
 Proof.
-  intros H. destruct a as [b|name t ps c|name t ps c|k|sid ps c| |fin|id args tk]; cbn [do_action].
+  intros H. destruct a as [b|name t ps c|name t ps c|k|sid ps c| |fin|id args tk|r0]; cbn [do_action].
   - destruct (run_block inst b st) as [ok st']. destruct ok; discriminate.
   - destruct (send_args fx_fixed ps c) as [p|]; [|discriminate].
     destruct (deliver env (ext_event name p) t st); discriminate.
@@ -201,6 +202,7 @@ Proof.
     destruct fin as [b|]; [|discriminate]. destruct (run_block inst b (set_eq r st)) as [ok st2].
     destruct ok; cbn; discriminate.
   - destruct (all_ok args && tk); [discriminate|]. cbn. discriminate.
+  - destruct (evr_ok r0); discriminate.
 Qed.
 
 (* every failure ends as an error event in the internal queue, and the action reports it *)
@@ -209,7 +211,7 @@ Lemma do_action_failure_raises a st :
   fst (do_action fx_fixed env inst a st) = ErrRaised /\
   (n_err st < n_err (snd (do_action fx_fixed env inst a st)))%nat.
 Proof.
-  intros H F. destruct a as [b|name t ps c|name t ps c|k|sid ps c| |fin|id args tk]; cbn [do_action fails] in *.
+  intros H F. destruct a as [b|name t ps c|name t ps c|k|sid ps c| |fin|id args tk|r0]; cbn [do_action fails] in *.
   - apply negb_true_iff in F. pose proof (run_block_fail_raises b st F) as Hr.
     destruct (run_block inst b st) as [ok st']. cbn [fst snd] in *. subst ok. split; [reflexivity|exact Hr].
   - destruct (send_args fx_fixed ps c) as [p|] eqn:E.
@@ -234,6 +236,8 @@ Proof.
     destruct (run_block inst b (set_eq r st)) as [ok st2]. cbn [fst snd] in *. subst ok.
     cbn [fx_finalize_unguarded fx_fixed fst snd]. split; [reflexivity|]. exact Hr.
   - apply negb_true_iff in F. rewrite F. cbn [fx_invoke_error_only_logged fx_fixed fst snd].
+    split; [reflexivity|]. rewrite n_err_raise_err_exec. lia.
+  - apply negb_true_iff in F. rewrite F. cbn [fst snd].
     split; [reflexivity|]. rewrite n_err_raise_err_exec. lia.
 Qed.
 
